@@ -263,8 +263,26 @@ func checkCache(h *History, vs []*opView) {
 	// replies arrive one latency after they were sent; a large one may take
 	// many round trips (QUIC / HTTP/2 flow control, congestion window), so for
 	// those only "before some client was handed that answer" is certain.
+	// (a small reply queued behind large ones on the same upstream - one QUIC
+	// or HTTP/2 connection, one pipelined stream - shares their fate)
+	bigAt := map[string][]time.Duration{}
+	for _, l := range serials {
+		for _, s := range l {
+			if s.reply.Bytes > 8192 {
+				bigAt[s.up] = append(bigAt[s.up], s.reply.At)
+			}
+		}
+	}
+	behindBig := func(s *serialRec) bool {
+		for _, t := range bigAt[s.up] {
+			if t <= s.reply.At+upMax && t >= s.reply.At-20*time.Second {
+				return true
+			}
+		}
+		return false
+	}
 	arrivedBy := func(s *serialRec) time.Duration {
-		if s.reply.Bytes <= 8192 {
+		if s.reply.Bytes <= 8192 && !behindBig(s) {
 			return s.reply.At + upMax + sigma
 		}
 		if t, ok := deliveredAt[sid(s)]; ok {
@@ -473,6 +491,11 @@ func checkCache(h *History, vs []*opView) {
 		}
 		// ---- C08: expiry
 		age := (d.at - clMin) - (sr.reply.At + upMin)
+		if sr.reply.Bytes > 8192 || behindBig(sr) {
+			// the lifetime starts when the proxy has the whole reply, and that
+			// may be seconds after the server began to send it
+			age = servedFrom - arrivedBy(sr)
+		}
 		if age > sr.lifetime+2*time.Second+sigma {
 			h.S.Fail("C08", "served-after-expiry", "%s: served from cache %v after the fetch; lifetime of that answer is %v (rcode %d, +2s granularity)", name, age, sr.lifetime, sr.rcode)
 		}
